@@ -309,6 +309,90 @@ def _range_maintenance(ctx):
                'server in the same pass',
                path=K.describe(path) if path else None,
                construct='un-place after ' + node.text())
+        _revocation_complete(ctx, func, graph, node, var, nz)
+
+
+def _revocation_complete(ctx, func, graph, node, var, nz):
+    """An iteration of the revocation pass that does not revoke has
+    established that there is nothing to revoke."""
+    head = K.enclosing_for(graph, node, var)
+    if head is None:
+        return
+
+    def fine(atom):
+        key = atom.key
+        if key[0] == 'is' and key[2] == 'None' and key[3]:
+            return key[1] in ('%s.identity' % var,
+                              '%s.identity_group_ref' % var)
+        if key[0] == 'cmp':
+            lhs = ast.parse('%s.identity' % var, mode='eval').body
+            rhs = ast.parse('%s.identity_group_ref.count' % var,
+                            mode='eval').body
+            return atom == N.cmp_atom(lhs, '<', rhs)
+        return False
+    starts = [e.dst for e in head.succ if e.kind == 'iter']
+    path = None
+    for start in starts:
+        if start is node:
+            continue
+        path = K.find_path_cp(
+            graph, start, [head], cut_node=lambda n: n is node,
+            cut_edge=lambda e: K.edge_establishes(ctx, func, nz, e, fine),
+            follow_exc=False)
+        if path:
+            break
+    ctx.ob('C05.3', func, head, path is None,
+           'every instance of the queue is examined: an iteration ends '
+           'without revoking only when the identity is None, the instance '
+           'has no group, or identity < count',
+           path=K.describe(path) if path else None,
+           construct='revocation pass skips an instance')
+
+
+def _model_removal(ctx):
+    """An instance leaves the cell's table only after its identity went
+    back to the pool - placed or not."""
+    cell = ctx.index.get_class(K.SCHED, 'Cell')
+    count = 0
+    for func in cell.live_methods():
+        graph = None
+        for sub in K.walk_no_nested(func.node):
+            key = None
+            if isinstance(sub, ast.Delete):
+                for tgt in sub.targets:
+                    if isinstance(tgt, ast.Subscript) and \
+                            N.txt(tgt.value) == 'self.apps':
+                        key = N.txt(tgt.slice)
+            elif isinstance(sub, ast.Call) and K.is_meth(sub, 'pop') and \
+                    K.recv_text(sub) == 'self.apps' and sub.args:
+                key = N.txt(sub.args[0])
+            if key is None:
+                continue
+            graph = graph or ctx.cfg(func)
+            site = [n for n in graph.nodes if n.ast is sub or any(
+                c is sub for c in C.node_calls(n))]
+            if not site:
+                continue
+            count += 1
+            env = K.func_env(func)
+            lookups = ('self.apps[%s]' % key, 'self.apps.get(%s)' % key)
+
+            def releases(edge):
+                for call in C.node_calls(edge.src):
+                    if K.is_meth(call, 'release_identity'):
+                        recv = K.recv(call)
+                        if N.txt(recv) in lookups or \
+                                N.txt(N.subst(recv, env)) in lookups or \
+                                N.txt(recv) + '.name' == key:
+                            return edge.kind != 'exc'
+                return False
+            ok = K.guarded_by(graph, site[0], releases)
+            ctx.ob('C05.2', func, site[0], ok,
+                   'the instance is dropped from the cell only after its '
+                   'identity was released on every path (an unplaced '
+                   'instance may still hold one until the next cycle)',
+                   construct='release before ' + site[0].text(40))
+    ctx.require(count >= 1, 'removal of an instance from Cell.apps')
 
 
 def _range_args(expr):
@@ -452,6 +536,7 @@ def check(ctx):
     _typestate(ctx)
     _group_removal(ctx)
     _removal_pairing(ctx)
+    _model_removal(ctx)
     _range_maintenance(ctx)
     _forced(ctx)
     _publication(ctx)
